@@ -37,6 +37,7 @@ struct MSrc {
     closed_delivered: bool,
     stream_ended: bool,
     stream_polled: bool,
+    stream_yielded: bool,
     // timer
     deadline: Option<i64>,
     dl_range: Option<(i64, i64)>,
@@ -173,6 +174,7 @@ pub struct Facts {
     pub tasks_scheduled_in_cb: u32,
     pub task_wakes: u32,
     pub stream_pushes: u32,
+    pub stream_self_wakes: u32,
     pub stream_items: u32,
     pub stream_ends: u32,
     pub task_polls: u32,
@@ -1073,6 +1075,7 @@ impl Monitor {
                 self.facts.stream_pushes += 1;
                 None
             }
+            ROp::StreamYield { .. } => None,
             ROp::StreamEnd { src } => {
                 let m = &mut self.srcs[src];
                 m.stream_ended = true;
@@ -1520,6 +1523,7 @@ impl Monitor {
                     closed_delivered: false,
                     stream_ended: false,
                     stream_polled: false,
+                    stream_yielded: false,
                     deadline: info.deadline_ns,
                     dl_range: None,
                     dl_d: 0,
@@ -1773,6 +1777,14 @@ impl Monitor {
                 }
                 None
             }
+            Ev::StreamSelfWake { src } => {
+                // the wake-up it gave itself is pending again; this pass ends without draining
+                let m = &mut self.srcs[*src];
+                m.pings = 1;
+                m.stream_yielded = true;
+                self.facts.stream_self_wakes += 1;
+                None
+            }
             Ev::StreamPoll { src } => {
                 let s = *src;
                 if self.cur_proc != Some(s) {
@@ -1815,6 +1827,7 @@ impl Monitor {
                 self.cur_proc = Some(s);
                 self.cur_proc_key = *key;
                 self.srcs[s].stream_polled = false;
+                self.srcs[s].stream_yielded = false;
                 self.last_cb_post = None;
                 let m = &self.srcs[s];
                 if m.taint.is_none() && m.st != St::Created && m.st != St::Rejected && key_src(*key) != key_src(m.key) {
@@ -1975,7 +1988,7 @@ impl Monitor {
                     }
                     // the stream is polled until it is pending: a wake-up that leaves ready items behind loses them
                     // (nothing will wake the source for them again)
-                    if m.stream_polled && m.taint.is_none() && *ret != PRet::Err && !m.closed_delivered && (!m.queue.is_empty() || m.stream_ended) {
+                    if m.stream_polled && !m.stream_yielded && m.taint.is_none() && *ret != PRet::Err && !m.closed_delivered && (!m.queue.is_empty() || m.stream_ended) {
                         return viol(
                             "C02.stream_drain",
                             &["C02"],
